@@ -54,3 +54,43 @@ package search
 //@   ensures [last-segment-existing] len(route) > 0 && route[0] != 47 && calls(add) == 0 && calls(newNode) == 0 && result == nil ==> old(has(kids, route)) && kids[route].item == item && old(kids[route].item) == nil
 //@   ensures [last-segment-duplicate] len(route) > 0 && route[0] != 47 && calls(add) == 0 && calls(newNode) == 0 && result != nil ==> (result == errDuplicateItem || result == errInvalidState)
 //@   ensures [continues-with-a-shorter-rest] calls(add) == 1 ==> len(arg(add, 1)) < len(route)
+
+// The two visitors of next. Inner segment: a child is accepted only when its key matches the segment AND the rest of
+// the route matches below it; only then is a ':name' key bound - to exactly that segment. Last segment: a child is
+// accepted only when its key matches and it carries an item, which becomes the result.
+//@ func (*Tree).next$1
+//@   prop C03
+//@   opaque match, next, addParam
+//@   captured-requires 0 <= i && i < len(route)
+//@   ensures [child-accepted-iff-segment-and-rest-match] result0 == (ret(match).found && calls(next) == 1 && ret(next)) && calls(match, k, token) == 1
+//@   ensures [rest-searched-below-that-child] calls(next) == 1 ==> ret(match).found && arg(next, 1) == v && arg(next, 2) == strsub(route, i + 1, len(route)) && arg(next, 3) == local(result)
+//@   ensures [parameter-bound-to-the-segment] (calls(addParam) == 1) == (result0 && ret(match).named) && (calls(addParam) == 1 ==> arg(addParam, 0) == local(result) && arg(addParam, 1) == ret(match).key && arg(addParam, 2) == ret(match).value)
+//@ func (*Tree).next$2
+//@   prop C03
+//@   opaque match, addParam
+//@   requires v != nil && result != nil
+//@   ensures [child-accepted-iff-match-and-item] result0 == (ret(match).found && v.item != nil) && calls(match, k, route) == 1
+//@   ensures [accepted-childs-item-is-the-result] result0 ==> local(result).Item == v.item
+//@   ensures [rejected-leaves-the-result-alone] !result0 ==> local(result).Item == old(result.Item) && calls(addParam) == 0
+//@   ensures [parameter-bound-to-the-segment] (calls(addParam) == 1) == (result0 && ret(match).named) && (calls(addParam) == 1 ==> arg(addParam, 0) == local(result) && arg(addParam, 1) == ret(match).key && arg(addParam, 2) == ret(match).value)
+// addParam: the binding is added to the result's parameters (the map is made on first use).
+//@ func addParam
+//@   prop C03
+//@   requires result != nil
+//@   ensures [bound] result.Params != nil && has(result.Params, key) && result.Params[key] == value
+//@   ensures [others-kept] old(result.Params) != nil ==> result.Params == old(result.Params)
+// next, the parts outside the visitors: an exhausted route at a node with an item is a match with that item.
+//@ func (*Tree).next
+//@   prop C03
+//@   opaque forEach
+//@   requires n != nil && result != nil
+//@   loop 1 invariant calls(forEach) == 0 && local(result).Item == old(result.Item)
+//@   ensures [end-of-route-at-an-item] len(route) == 0 && n.item != nil ==> result0 && local(result).Item == n.item && calls(forEach) == 0
+//@   ensures [otherwise-the-children-decide] !(len(route) == 0 && n.item != nil) ==> calls(n.forEach) == 1 && result0 == ret(forEach)
+// forEach: the visitor sees children of both kinds; the walk goes on exactly as long as the visitor says no and
+// stops - reporting success - at the first child it accepts.
+//@ func (*node).forEach
+//@   prop C03
+//@   requires n != nil
+//@   loop 2 iteration-ensures [goes-on-only-after-a-no] calls(fn) == 1 && !ret(fn) && arg(fn, 0) == k && arg(fn, 1) == v
+//@   ensures [success-is-the-visitors-yes] result ==> ret(fn, 0, last)
